@@ -206,7 +206,7 @@ def targets():
                                       z3.Implies(z3.And((i[0] * i[1] + 0x2000 + z3.If(i[0] * i[1] < 0, -1, 0)) / 16384 >= -(1 << 31),
                                                         (i[0] * i[1] + 0x2000 + z3.If(i[0] * i[1] < 0, -1, 0)) / 16384 < (1 << 31)),
                                                  o == (i[0] * i[1] + 0x2000 + z3.If(i[0] * i[1] < 0, -1, 0)) / 16384))]))
-    T.append(dict(id="RoundState::round", fn=("round", ["RoundState", "F26Dot6"]), where="sk", ins=["roundstate", "nt32"], props=["C20leaf"],
+    T.append(dict(id="RoundState::round", fn=("round", ["RoundState", "F26Dot6"]), where="sk", ins=["roundstate", "nt32"], props=["C20leaf"], tier="thorough",
                   post=lambda i, o: []))
     return T
 
@@ -307,6 +307,8 @@ def main():
         if prop not in t["props"] and not (prop == "C20" and "C20leaf" in t["props"]):
             continue
         if only and only not in t["id"]:
+            continue
+        if t.get("tier") == "thorough" and tier != "thorough":
             continue
         if t.get("where") == "sk":
             w.need_skrifa()
